@@ -109,6 +109,14 @@ func makeRemoteSource(sourceType string, u *url.URL, subPath string) (RemoteSour
 		return RemoteSource{}, fmt.Errorf("must not use username or password in URL portion")
 	}
 
+	// The per-type rules below read the query string through url.URL.Query,
+	// which silently drops pairs it cannot parse (such as ones containing a
+	// semicolon). Refuse such a query string on every route, so that an
+	// argument hidden in a malformed pair cannot escape those rules.
+	if _, err := url.ParseQuery(u.RawQuery); err != nil {
+		return RemoteSource{}, fmt.Errorf("invalid URL query string syntax: %w", err)
+	}
+
 	typeImpl, ok := remoteSourceTypes[sourceType]
 	if !ok {
 		if sourceType == u.Scheme {
